@@ -204,11 +204,50 @@ def check(run, repo, world):
            sample={"rule": "R-EVT-REG", "registry": got})
     occ = world.cls("dali.device.occupancy.OccupancyEvent")
     fed = occ.methods["from_event_data"][1]
-    t = [unparse(n.test) for n in ast.walk(fed) if isinstance(n, ast.If)]
-    run.ob("R-EVT-REG", occ.qname + ".from_event_data",
-           t == ["event_data | 15 != 15"],
-           "occupancy data is valid exactly when bits 9:4 are zero; test is "
-           "%s" % t, where(repo.mod(occ.mod), fed))
+    # valid exactly when bits 9:4 are zero: the function's paths, with the
+    # tests folded for each of the 1024 possible values of the 10 data bits
+    from .. import paths as _paths
+    from ..fold import UNKNOWN as _UNK
+    dparam = fed.args.args[1].arg
+    try:
+        fps = _paths.summaries(fed)
+    except _paths.Unsupported as e:
+        raise AnalysisError("R-EVT-REG: OccupancyEvent.from_event_data is "
+                            "not loop-free: %s" % e)
+    wrong = []
+    for v in range(1024):
+        got = "undecided"
+        for p_ in fps:
+            holds = True
+            for (t_, b_) in p_.conds:
+                r_ = folder.eval(t_, {dparam: v}, occ.mod)
+                if r_ is _UNK:
+                    raise AnalysisError(
+                        "R-EVT-REG: cannot fold `%s` for %s=%d" % (
+                            unparse(t_), dparam, v))
+                if bool(r_) != b_:
+                    holds = False
+                    break
+            if holds:
+                if p_.kind == "return" and p_.expr is not None and not (
+                        isinstance(p_.expr, ast.Constant) and
+                        p_.expr.value is None):
+                    c_ = world.resolve_class(occ.mod, p_.expr)
+                    got = c_.qname if c_ is not None else unparse(p_.expr)
+                elif p_.kind == "raise":
+                    got = "raise"
+                else:
+                    got = None
+                break
+        want_ = occ.qname if v < 16 else None
+        if got != want_:
+            wrong.append((v, got))
+    run.count(1024)
+    run.ob("R-EVT-REG", occ.qname + ".from_event_data", not wrong,
+           "occupancy data is valid exactly when bits 9:4 are zero; for "
+           "data %s the decoder class is %s" % (
+               [w[0] for w in wrong[:6]], [w[1] for w in wrong[:6]]),
+           where(repo.mod(occ.mod), fed))
 
     # ---- retry ------------------------------------------------------------------
     run.rule("R-EVT-RETRY", "retry_decode == one decode of the stored frame "
@@ -218,18 +257,45 @@ def check(run, repo, world):
     calls = [c for c in ast.walk(rfn) if isinstance(c, ast.Call) and unparse(
         c.func).endswith("from_frame")]
     ok = len(calls) == 1
+    ctext = None
     if ok:
         c = calls[0]
+        ctext = unparse(c, 400)
         kw = {k.arg: unparse(k.value) for k in c.keywords}
         ok = unparse(c.args[0]) == "self.frame" and kw.get(
             "dev_inst_map") == rfn.args.args[1].arg and kw.get(
                 "devicetype") in ("self.devicetype", "0", None)
-    rets = [unparse(n.value) for n in ast.walk(rfn) if isinstance(
-        n, ast.Return) and n.value is not None]
-    tests = [unparse(n.test) for n in ast.walk(rfn) if isinstance(n, ast.If)]
-    run.ob("R-EVT-RETRY", amb.qname + ".retry_decode", ok and
-           rets == ["retried"] and tests ==
-           ["not isinstance(retried, AmbiguousInstanceType)"],
+    # outcome per path: the decoded event unless it is still ambiguous
+    shape = ok
+    if ok:
+        try:
+            rps = _paths.summaries(rfn)
+        except _paths.Unsupported as e:
+            raise AnalysisError("R-EVT-RETRY: retry_decode is not loop-free: "
+                                "%s" % e)
+        for p_ in rps:
+            amb_ = None
+            for (t_, b_) in p_.conds:
+                if isinstance(t_, ast.Call) and unparse(
+                        t_.func) == "isinstance" and len(
+                            t_.args) == 2 and unparse(
+                                t_.args[0], 400) == ctext:
+                    k_ = world.resolve_class(DG, t_.args[1])
+                    if k_ is not None and k_.qname == amb.qname:
+                        amb_ = b_
+                        continue
+                shape = False      # some other condition decides
+            if amb_ is None:
+                shape = False
+            elif amb_:
+                shape = shape and (p_.kind == "fall" or (
+                    p_.kind == "return" and (p_.expr is None or (
+                        isinstance(p_.expr, ast.Constant) and
+                        p_.expr.value is None))))
+            else:
+                shape = shape and p_.kind == "return" and \
+                    p_.expr is not None and unparse(p_.expr, 400) == ctext
+    run.ob("R-EVT-RETRY", amb.qname + ".retry_decode", ok and shape,
            "retry_decode must decode self.frame once with the given map and "
            "return the result unless it is still ambiguous",
            where(mod, rfn))
